@@ -18,8 +18,9 @@ MNS = 'xmlns="http://www.w3.org/1998/Math/MathML" xmlns:cellml="http://www.cellm
 DIMS = [
     ('structure', ['leaf', 'encapsulated-child', 'child-is-import', 'import-of-import', 'grandchild']),
     ('instances', ['one', 'two-of-the-same']),
-    ('libunits', ['metre', 'lib-mm', 'lib-mm-via-um', 'lib-mm-only-in-cn']),
-    ('unitsclash', ['none', 'same-name-same-definition', 'same-name-different-definition', 'root-imports-same-name-different-definition', 'clash-with-child-units']),
+    ('libunits', ['metre', 'lib-mm', 'lib-mm-via-um', 'lib-mm-only-in-cn', 'lib-mm-via-um-via-nm']),
+    ('unitsclash', ['none', 'same-name-same-definition', 'same-name-different-definition', 'root-imports-same-name-different-definition', 'clash-with-child-units',
+                    'root-has-the-innermost-library-units-under-another-name']),
     ('compclash', ['none', 'root-component-named-like-child', 'root-component-named-like-reference', 'root-child-named-like-import']),
     ('rootunits', ['local', 'imported-units-on-variable', 'imported-units-only-in-cn', 'same-units-imported-twice']),
     ('mathblocks', ['one', 'two']),
@@ -68,6 +69,11 @@ def build(case):
     elif lu in ('lib-mm', 'lib-mm-only-in-cn'):
         lib1_units.append(units_xml('mm', 'metre', prefix='milli'))
         xu, xs = ('mm', 1e-3) if lu == 'lib-mm' else ('metre', 1.0)
+    elif lu == 'lib-mm-via-um-via-nm':  # a reference chain of depth 3: mm = 1000 um, um = 1000 nm, nm = nano metre
+        lib1_units.append(units_xml('nm', 'metre', prefix='nano'))
+        lib1_units.append(units_xml('um', 'nm', multiplier='1000'))
+        lib1_units.append(units_xml('mm', 'um', multiplier='1000'))
+        xu, xs = 'mm', 1e-3
     else:  # mm defined through another library units: mm = 1000 um, um = micro metre
         lib1_units.append(units_xml('um', 'metre', prefix='micro'))
         lib1_units.append(units_xml('mm', 'um', multiplier='1000'))
@@ -174,6 +180,12 @@ def build(case):
     elif uc == 'clash-with-child-units':
         root_units.append(units_xml('km', 'metre', multiplier='5'))    # the root's "km" is 5 metres
         b_u, b_s = 'km', 5.0
+    elif uc == 'root-has-the-innermost-library-units-under-another-name':
+        # the importing model already defines units equivalent to the innermost units of the library's chain, under its own
+        # name, and does not define the units in between
+        inner = {'lib-mm': ('milli', 1e-3), 'lib-mm-only-in-cn': ('milli', 1e-3), 'lib-mm-via-um': ('micro', 1e-6), 'lib-mm-via-um-via-nm': ('nano', 1e-9)}.get(lu, ('centi', 1e-2))
+        root_units.append(units_xml('root_own_name', 'metre', prefix=inner[0]))
+        b_u, b_s = 'root_own_name', inner[1]
     if ru == 'imported-units-on-variable':
         imports.append('<import %s xlink:href="ulib2.cellml"><units name="kay" units_ref="kilo_m"/></import>' % XL)
         lib['ulib2.cellml'] = '<?xml version="1.0"?><model %s name="ulib2">%s</model>' % (NS, units_xml('kilo_m', 'metre', prefix='kilo'))
@@ -247,6 +259,9 @@ def families(opts):
         case = decode(i)
         if opts.get('skip-libunits') == case['libunits']:
             ctx.outcome('not-run-in-this-pass:libunits=' + case['libunits'])
+            return
+        if opts.get('sub') == 'q' and (case['rootunits'] not in ('local', 'imported-units-on-variable') or case['compclash'] not in ('none', 'root-component-named-like-child')):
+            ctx.outcome('not-in-the-quick-sub-product')
             return
         root, lib, expected = build(case)
         tag = ':'.join('%s' % case[k] for k, _ in DIMS)
